@@ -443,7 +443,7 @@ class RejectionCB(Evaluator):
 
         info.clear()
 
-        first_probs = [i['probability'] for i in first_100] + [(1-i['probability'])/(len(i['actions'])-1) for i in first_100]
+        first_probs = [i['probability'] for i in first_100] + [(1-i['probability'])/(len(i['actions'])-1) for i in first_100 if len(i['actions']) > 1]
         ope_rewards = []
         Q           = []
         c           = self._cinit or min(list(filter(None,first_probs))+[self._cmax])
@@ -521,7 +521,7 @@ class RejectionCB(Evaluator):
                 if out : yield out
 
                 ope_rewards.clear()
-                c = min(percentile(Q,self._cpct,sort=False), self._cmax)
+                if Q: c = min(percentile(Q,self._cpct,sort=False), self._cmax)
 
         if ope_rewards:
             pass
